@@ -27,7 +27,7 @@ Definition apply_sets (sets : list (nat * assign)) (r : row) : row :=
     end) sets r.
 
 Record icase := {
-  i_kind : nat;                       (* 0 update, 1 delete, 2 insert *)
+  i_kind : nat;                       (* 0 update, 1 delete, 2 insert, 3 insert on duplicate key update *)
   i_only_care : bool;
   i_ncols : nat;
   i_pk : list nat;
@@ -52,6 +52,9 @@ Definition model_res (c : icase) : res :=
   match i_kind c with
   | 0 => at_update (i_pk c) (tracked (i_only_care c) (i_ncols c) (i_pk c) (i_cols c)) (i_m c) (apply_sets (i_sets c)) (i_tb c)
   | 1 => at_delete all (i_m c) (i_tb c)
+  | 3 => (* upsert: i_cols = columns assigned by ON DUPLICATE KEY UPDATE; the effect on a colliding row is read off the observed table *)
+      at_upsert (i_pk c) all (existsb (fun col => mem_nat col (i_pk c)) (i_cols c)) (i_m c)
+                (fun r => match lookup (key_of (i_pk c) r) (i_ta c) with Some r' => r' | None => r end) (i_krs c) (i_tb c)
   | _ => at_insert (tracked (i_only_care c) (i_ncols c) (i_pk c) (i_cols c)) (i_krs c) (i_listed c) (i_last_id c) (i_tb c)
   end.
 
